@@ -6,6 +6,8 @@
 //   replay_unauth prefix-from     -> control: an authenticated user sends a from that is a proper PREFIX of her own JID (someone else's address): must NOT be delivered
 //   replay_unauth good-from       -> control: an authenticated user's message is delivered stamped with her own full JID
 //   replay_unauth anonymous-auth  -> control: <auth mechanism='ANONYMOUS'/> (a mechanism QXmppSaslServer::create builds although it is never offered) must not authenticate
+//   replay_unauth digest-unknown-user -> control: DIGEST-MD5 login as a user the checker does not know, response computed with the EMPTY password: must be refused
+//   replay_unauth digest-known-user   -> control: DIGEST-MD5 login of a known user with the right password is accepted (reports REPRODUCED if it is NOT)
 //   replay_unauth wrong-password  -> control: one PLAIN <auth/> with a wrong password must be refused and leave the connection without a JID
 //   replay_unauth pipelined-auth  -> two PLAIN <auth/> in one segment (own valid credentials, then victim + wrong password):
 //                                    which JID does the server assign when the first reply arrives?                       (finding C16-F2)
@@ -18,6 +20,8 @@
 #include <QElapsedTimer>
 #include <QTcpSocket>
 #include <QTimer>
+#include <QCryptographicHash>
+#include <QMap>
 #include <csignal>
 #include <unistd.h>
 #include <QHostAddress>
@@ -66,6 +70,27 @@ public:
         return reply;
     }
 };
+
+// "key=value,key=\"value\"" list of a DIGEST-MD5 challenge
+static QMap<QByteArray, QByteArray> parseDirectives(const QByteArray &ba)
+{
+    QMap<QByteArray, QByteArray> m;
+    for (const QByteArray &part : ba.split(',')) {
+        const int eq = part.indexOf('=');
+        if (eq < 0) {
+            continue;
+        }
+        QByteArray v = part.mid(eq + 1).trimmed();
+        if (v.startsWith('"') && v.endsWith('"')) {
+            v = v.mid(1, v.size() - 2);
+        }
+        m.insert(part.left(eq).trimmed(), v);
+    }
+    return m;
+}
+
+struct Peer;
+static bool digestLogin(Peer &c, const QByteArray &user, const QByteArray &pw);
 
 static void onCrash(int)
 {
@@ -138,6 +163,35 @@ struct Peer {
         return true;
     }
 };
+
+// RFC 2831 client side: returns true if the server answered <success/>
+static bool digestLogin(Peer &c, const QByteArray &user, const QByteArray &pw)
+{
+    c.send("<auth xmlns='urn:ietf:params:xml:ns:xmpp-sasl' mechanism='DIGEST-MD5'/>");
+    if (!waitFor([&] { return c.rx.contains("</challenge>") || c.rx.contains("<failure"); }, 1500) || c.rx.contains("<failure")) {
+        return false;
+    }
+    int a = c.rx.indexOf('>', c.rx.lastIndexOf("<challenge")) + 1;
+    const auto ch = parseDirectives(QByteArray::fromBase64(c.rx.mid(a, c.rx.indexOf("</challenge>", a) - a)));
+    const QByteArray nonce = ch.value("nonce"), realm = ch.value("realm"), cnonce = "Y25vbmNlLXJlcGxheQ==", nc = "00000001", digestUri = "xmpp/example.org";
+    const QByteArray secret = QCryptographicHash::hash(user + ':' + realm + ':' + pw, QCryptographicHash::Md5);
+    const QByteArray HA1 = QCryptographicHash::hash(secret + ':' + nonce + ':' + cnonce, QCryptographicHash::Md5).toHex();
+    const QByteArray HA2 = QCryptographicHash::hash("AUTHENTICATE:" + digestUri, QCryptographicHash::Md5).toHex();
+    const QByteArray resp = QCryptographicHash::hash(HA1 + ':' + nonce + ':' + nc + ':' + cnonce + ":auth:" + HA2, QCryptographicHash::Md5).toHex();
+    const QByteArray msg = "username=\"" + user + "\",realm=\"" + realm + "\",nonce=\"" + nonce + "\",cnonce=\"" + cnonce + "\",nc=" + nc +
+        ",qop=auth,digest-uri=\"" + digestUri + "\",response=" + resp + ",charset=utf-8";
+    const int before = c.rx.size();
+    c.send("<response xmlns='urn:ietf:params:xml:ns:xmpp-sasl'>" + msg.toBase64() + "</response>");
+    if (!waitFor([&] { return c.rx.indexOf("</challenge>", before) >= 0 || c.rx.indexOf("<failure", before) >= 0 || c.rx.contains("<success"); }, 1500) || c.rx.indexOf("<failure", before) >= 0) {
+        return false;
+    }
+    if (c.rx.contains("<success")) {
+        return true;
+    }
+    c.send("<response xmlns='urn:ietf:params:xml:ns:xmpp-sasl'/>");
+    waitFor([&] { return c.rx.indexOf("<failure", before) >= 0 || c.rx.contains("<success"); }, 1500);
+    return c.rx.contains("<success");
+}
 
 int main(int argc, char **argv)
 {
@@ -247,6 +301,26 @@ int main(int argc, char **argv)
         std::printf("control: <auth mechanism='ANONYMOUS'/> answered with <success/>: %s; resource bound without any password check: %s\n",
                     attacker.rx.contains("<success") ? "YES" : "no", bound ? "YES" : "no");
         violated = attacker.rx.contains("<success") || bound;
+    } else if (mode == "digest-unknown-user" || mode == "digest-known-user") {
+        Peer attacker("ATTACKER");
+        if (!attacker.open(port)) {
+            return 2;
+        }
+        if (mode == "digest-known-user") {
+            const bool ok = digestLogin(attacker, "mallory", "mallory-pw");
+            std::printf("control: DIGEST-MD5 login of a known user with the right password accepted: %s\n", ok ? "yes" : "NO");
+            violated = !ok;
+        } else {
+            const bool ok = digestLogin(attacker, "ghost", "");
+            bool bound = false;
+            if (ok) {
+                attacker.header();
+                attacker.send("<iq type='set' id='bind1'><bind xmlns='urn:ietf:params:xml:ns:xmpp-bind'><resource>x</resource></bind></iq>");
+                bound = waitFor([&] { return attacker.rx.contains("id=\"bind1\"") && attacker.rx.contains("type=\"result\""); }, 1000);
+            }
+            std::printf("control: DIGEST-MD5 login as 'ghost' (unknown to the checker) with the empty password accepted: %s; resource bound: %s\n", ok ? "YES" : "no", bound ? "YES" : "no");
+            violated = ok || bound;
+        }
     } else if (mode == "wrong-password") {
         QString jidAtRefusal;
         QObject::connect(&server, &QXmppServer::updateCounter, [&](const QString &counter) {
